@@ -139,6 +139,9 @@ func specPlain4(p *packets.FrameParser) bool {
 //@ ensures[C10.entry.others]  forallint(h, old(selb(isOpen, h)) ==> selb(isOpen, h) && sel(closeN, h) == old(sel(closeN, h)))
 //@ ensures[C20.syn.nodial]    tcpDialed == old(tcpDialed)
 //@ before TracerouteSerial assert[C10.tcp.open] selb(isOpen, ref(driver.source)) && selb(isOpen, ref(driver.sink))
+// C11: the listener that reserves the local port stays open for as long as probes are in flight, so no other run (or
+// process) can be handed the same source port, which is what tells concurrent TCP runs to one target apart
+//@ before TracerouteSerial assert[C11.tcp.port.held] !handle.MustClosePort ==> selb(isOpen, ref(tcpListener)) && t.srcPort == port
 // C12 (filter ⊇ matcher, composition step): the tuple filter installed for the run is exactly "from the target's
 // address and port to the local address and port" as the driver's matcher will later compute them from the same
 // configuration (specTarget / specLocal read t.Target, t.DestPort, t.srcIP, t.srcPort); with GenerateTCP4Filter#C12.exact
